@@ -388,11 +388,14 @@ class BVReduceBW:
                 and is_bv_sort(get_sort(node[1])))
 
     def global_mutations(self, node, input_):
+        # the new variable must be a fresh, single symbol
+        varname = derive_symbol(node[1], prefix='_')
+        if varname is None:
+            return
         bw = get_bv_width(node[1])
         bws = sorted(set([bw - 1, bw // 2, 2, 1]))
         for b in bws:
             if 0 < b < bw:
-                varname = '_{}'.format(node[1])
                 var = Node('declare-const', varname, Node('_', 'BitVec', b))
                 zext = Node('define-fun', node[1], (), get_sort(node[1]),
                             Node(Node('_', 'zero_extend', bw - b), varname))
